@@ -137,18 +137,6 @@ pub fn execute(check: &dyn Check, p: &Params, tape_data: Option<Vec<u64>>, want_
     };
     let mut ctx = Ctx::new(p.trace, want_sample);
     LAST_PANIC.with(|lp| *lp.borrow_mut() = None);
-    // the process-local time zone is part of the environment: nothing in nexrad may depend on it
-    // (POSIX TZ strings, no tz database needed); decided by the run seed like the logging switch
-    let tz = match (p.seed >> 3) % 8 {
-        3 => "EST5EDT,M3.2.0,M11.1.0",
-        5 => "NZST-12NZDT,M9.5.0,M4.1.0/3",
-        6 => "<+0545>-5:45",
-        _ => "UTC0",
-    };
-    std::env::set_var("TZ", tz);
-    if tz != "UTC0" {
-        ctx.count("non_utc_local_time_zone");
-    }
     // a quarter of the runs execute with trace logging enabled (decided by the run seed)
     let logging = p.seed % 4 == 1;
     crate::logsink::set(logging);
@@ -229,10 +217,75 @@ fn cpu_count() -> usize {
 }
 
 // ---------------------------------------------------------------------------------------------
+// build / environment variants
+//
+// A *variant* is the pair (binary, process environment) a run executes under:
+//   std    - this build: debug assertions and overflow checks on, local time zone UTC
+//   tz     - the same binary in a process whose local time zone is not UTC (nothing in nexrad may
+//            depend on the zone; chrono caches the zone per process, so it is a per-process choice)
+//   plain  - a second build of the harness with the plain release profile (no debug assertions, no
+//            overflow checks): what a release user runs; code hidden inside debug_assert! or
+//            cfg(debug_assertions) and silent wrap-around only show here
+// Workers are assigned a variant by their index; every run is still a pure function of
+// (seed, variant). Violations are regenerated, minimised and written to a replay file by a child
+// process of the same variant (`nxsim report`), and `nxsim replay` re-executes under the variant
+// recorded in the file.
+
+pub const TZ_NON_UTC: &str = "EST5EDT,M3.2.0,M11.1.0";
+
+pub fn variant_of_worker(w: u64, nw: u64) -> &'static str {
+    if nw < 4 {
+        return "std";
+    }
+    // roughly 1/8 plain, 1/8 tz, the rest std; the last workers carry the special variants
+    let specials = (nw / 8).max(1);
+    if w >= nw - specials {
+        "tz"
+    } else if w >= nw - 2 * specials {
+        "plain"
+    } else {
+        "std"
+    }
+}
+
+pub fn exe_for(variant: &str) -> std::path::PathBuf {
+    let me = std::env::current_exe().expect("current_exe");
+    // target/<profile>/nxsim
+    let target = me.parent().and_then(|p| p.parent()).map(|p| p.to_path_buf());
+    let want = match variant {
+        "plain" => "plain",
+        _ => "release",
+    };
+    if let Some(t) = target {
+        let cand = t.join(want).join("nxsim");
+        if cand.exists() {
+            return cand;
+        }
+    }
+    me
+}
+
+/// The variant this process runs as (set by `apply_variant`).
+pub fn current_variant() -> String {
+    std::env::var("NXSIM_VARIANT").unwrap_or_else(|_| "std".to_string())
+}
+
+/// Called first thing in a worker / report / replay process.
+pub fn apply_variant(variant: &str) {
+    std::env::set_var("NXSIM_VARIANT", variant);
+    std::env::set_var("TZ", if variant == "tz" { TZ_NON_UTC } else { "UTC0" });
+}
+
+pub fn build_is_plain() -> bool {
+    !cfg!(debug_assertions) && option_env!("NXSIM_PLAIN").is_some() || std::env::current_exe().map(|p| p.to_string_lossy().contains("/plain/")).unwrap_or(false)
+}
+
+// ---------------------------------------------------------------------------------------------
 // worker
 
 /// Worker process: runs global run indices w, w+W, w+2W, ... of the plan.
-pub fn worker_main(check: &dyn Check, tier: Tier, seed: u64, w: u64, nw: u64, budget_s: u64) -> i32 {
+pub fn worker_main(check: &dyn Check, tier: Tier, seed: u64, w: u64, nw: u64, budget_s: u64, variant: &str) -> i32 {
+    apply_variant(variant);
     let plan = check.plan(tier);
     let total: u64 = plan.iter().map(|s| s.runs).sum();
     let start = Instant::now();
@@ -297,7 +350,7 @@ pub fn worker_main(check: &dyn Check, tier: Tier, seed: u64, w: u64, nw: u64, bu
             violations += 1;
             if violations <= 200 {
                 let line = json!({"g": g, "section": section, "index": index, "seed": p.seed,
-                    "clause": v.clause, "locus": v.locus, "detail": v.detail});
+                    "clause": v.clause, "locus": v.locus, "detail": v.detail, "variant": variant});
                 let _ = writeln!(out, "V {}", line);
                 let _ = out.flush();
             }
@@ -332,7 +385,7 @@ pub fn worker_main(check: &dyn Check, tier: Tier, seed: u64, w: u64, nw: u64, bu
     let summary = json!({
         "runs": runs, "evaluations": evaluations, "nontrivial": nontrivial, "sim_ms": sim_ms,
         "counters": counters, "samples": samples, "violations": violations,
-        "rechecks": rechecks, "classes_file": path, "skipped": skipped,
+        "rechecks": rechecks, "classes_file": path, "skipped": skipped, "variant": variant,
         "per_section": per_section.iter().map(|(k, v)| (k.to_string(), *v)).collect::<BTreeMap<_, _>>(),
         "wall_s": start.elapsed().as_secs_f64(),
     });
@@ -511,6 +564,7 @@ pub fn write_replay(
         "section": p.section,
         "index": p.index,
         "seed": p.seed,
+        "variant": current_variant(),
         "tape": tape,
         "signature": sig,
         "clause": v.clause,
@@ -541,6 +595,28 @@ pub fn replay_main(path: &str) -> i32 {
             return 2;
         }
     };
+    // re-execute under the variant recorded in the file (other binary and/or environment)
+    let variant = doc["variant"].as_str().unwrap_or("std").to_string();
+    if std::env::var("NXSIM_REPLAY_INNER").is_err() {
+        let status = Command::new(exe_for(&variant))
+            .arg("replay")
+            .arg(path)
+            .env("NXSIM_REPLAY_INNER", "1")
+            .env("NXSIM_VARIANT", &variant)
+            .env("TZ", if variant == "tz" { TZ_NON_UTC } else { "UTC0" })
+            .status();
+        return match status {
+            Ok(st) => st.code().unwrap_or_else(|| {
+                println!("the replay process was killed by a signal (abort, stack overflow or out of memory)");
+                println!("VIOLATION property={} replay={}", doc["property"].as_str().unwrap_or(""), path);
+                1
+            }),
+            Err(e) => {
+                eprintln!("cannot start the replay process: {}", e);
+                2
+            }
+        };
+    }
     let id = doc["property"].as_str().unwrap_or("");
     let check = match find(id) {
         Some(c) => c,
@@ -633,9 +709,14 @@ pub fn check_main(check: &'static dyn Check, tier: Tier) -> i32 {
     };
     let known_here: Vec<&Known> = known.iter().filter(|k| k.property == check.id()).collect();
 
-    let exe = std::env::current_exe().expect("current_exe");
     let mut handles = Vec::new();
+    let mut variant_workers: BTreeMap<String, u64> = BTreeMap::new();
     for w in 0..nw {
+        let variant = variant_of_worker(w, nw);
+        let exe = exe_for(variant);
+        // if the plain binary has not been built, those workers run the standard build
+        let variant = if variant == "plain" && !exe.to_string_lossy().contains("/plain/") { "std" } else { variant };
+        *variant_workers.entry(variant.to_string()).or_insert(0) += 1;
         let mut child = Command::new(&exe)
             .arg("worker")
             .arg(check.id())
@@ -644,6 +725,7 @@ pub fn check_main(check: &'static dyn Check, tier: Tier) -> i32 {
             .arg(w.to_string())
             .arg(nw.to_string())
             .arg(budget.to_string())
+            .arg(variant)
             .stdout(Stdio::piped())
             .stderr(Stdio::inherit())
             .spawn()
@@ -932,44 +1014,49 @@ pub fn check_main(check: &'static dyn Check, tier: Tier) -> i32 {
             new_violation_lines.push(format!("VIOLATION property={} replay={}", check.id(), path));
             continue;
         }
-        // regenerate the tape in-process
-        let ex = execute(check, &p, None, false);
-        let same = ex
-            .ctx
-            .violation
-            .as_ref()
-            .map(|x| x.signature(check.id()) == *sig)
-            .unwrap_or(false);
-        if !same {
-            eprintln!(
-                "harness error: violation {} of run section={} index={} did not reproduce in the parent process",
-                sig, p.section, p.index
-            );
-            println!("HARNESS-ERROR property={} (no verdict)", check.id());
-            return 2;
-        }
-        let original_len = ex.tape.len();
-        let (min_tape, reruns) = minimise(check, &p, ex.tape.clone(), sig);
-        // the minimised tape must still fail the same way; otherwise keep the original
-        let confirm = execute(check, &p, Some(min_tape.clone()), false);
-        let (tape, v_final, minimised) = match &confirm.ctx.violation {
-            Some(x) if x.signature(check.id()) == *sig => (min_tape, x.clone(), true),
-            _ => (ex.tape.clone(), ex.ctx.violation.clone().unwrap(), false),
-        };
-        match write_replay(check, &p, &tape, &v_final, minimised, reruns, original_len, &replay_dir) {
-            Ok(path) => {
-                println!(
-                    "violation: {} :: {} (tape {} -> {} draws, {} minimiser re-runs)",
-                    sig,
-                    v_final.detail,
-                    original_len,
-                    tape.len(),
-                    reruns
-                );
-                new_violation_lines.push(format!("VIOLATION property={} replay={}", check.id(), path));
-            }
+        // regenerate, minimise and write the replay file in a child process of the same variant
+        let variant = v["variant"].as_str().unwrap_or("std").to_string();
+        let out = Command::new(exe_for(&variant))
+            .arg("report")
+            .arg(check.id())
+            .arg(tier.name())
+            .arg(p.section.to_string())
+            .arg(p.index.to_string())
+            .arg(p.seed.to_string())
+            .arg(sig)
+            .arg(&variant)
+            .arg(&replay_dir)
+            .stdin(Stdio::null())
+            .stderr(Stdio::inherit())
+            .output();
+        let text = match out {
+            Ok(o) => String::from_utf8_lossy(&o.stdout).to_string(),
             Err(e) => {
-                eprintln!("harness error: cannot write replay file: {}", e);
+                eprintln!("harness error: cannot run the report process: {}", e);
+                println!("HARNESS-ERROR property={} (no verdict)", check.id());
+                return 2;
+            }
+        };
+        let rep: Option<Value> = text.lines().find_map(|l| l.strip_prefix("REPORT ").and_then(|j| serde_json::from_str(j).ok()));
+        match rep {
+            Some(r) if r["ok"].as_bool() == Some(true) => {
+                println!(
+                    "violation: {} :: {} (variant {}, tape {} -> {} draws, {} minimiser re-runs)",
+                    sig,
+                    r["detail"].as_str().unwrap_or(""),
+                    variant,
+                    r["original_len"],
+                    r["final_len"],
+                    r["reruns"]
+                );
+                new_violation_lines.push(format!("VIOLATION property={} replay={}", check.id(), r["path"].as_str().unwrap_or("none")));
+            }
+            other => {
+                eprintln!(
+                    "harness error: violation {} of run section={} index={} (variant {}) could not be reproduced by the report process: {:?}",
+                    sig, p.section, p.index, variant, other.map(|r| r["error"].clone())
+                );
+                println!("HARNESS-ERROR property={} (no verdict)", check.id());
                 return 2;
             }
         }
@@ -1022,6 +1109,8 @@ pub fn check_main(check: &'static dyn Check, tier: Tier) -> i32 {
             "missing_required_probes": missing_probes,
             "determinism_rechecks": rechecks,
             "workers": nw,
+            "workers_per_variant": variant_workers,
+            "variants": "std = debug assertions + overflow checks, UTC; tz = same build, non-UTC local time zone; plain = plain release build (no debug assertions, no overflow checks)",
             "engine": check.engine(),
             "components": check.components(),
             "known_findings_reported": known_lines.len(),
@@ -1138,4 +1227,41 @@ pub fn selftest_fingerprints(n: u64, only: Option<&str>, part: Option<(u64, u64)
         }
     }
     0
+}
+
+// ---------------------------------------------------------------------------------------------
+// `nxsim report ...` (internal): regenerate one violating run under this process's variant,
+// minimise it, write the replay file, print one machine-readable line.
+
+pub fn report_main(check: &dyn Check, tier: Tier, section: u32, index: u64, seed: u64, sig: &str, variant: &str, replay_dir: &str) -> i32 {
+    apply_variant(variant);
+    let p = Params { property: check.id().to_string(), tier, section, index, seed, trace: false };
+    let ex = execute(check, &p, None, false);
+    if let Some(h) = ex.harness_error {
+        println!("REPORT {}", json!({"ok": false, "error": h}));
+        return 2;
+    }
+    let same = ex.ctx.violation.as_ref().map(|x| x.signature(check.id()) == sig).unwrap_or(false);
+    if !same {
+        println!("REPORT {}", json!({"ok": false, "error": format!("did not reproduce: got {:?}", ex.ctx.violation.as_ref().map(|v| v.signature(check.id())))}));
+        return 2;
+    }
+    let original_len = ex.tape.len();
+    let (min_tape, reruns) = minimise(check, &p, ex.tape.clone(), sig);
+    // the minimised tape must still fail the same way; otherwise keep the original
+    let confirm = execute(check, &p, Some(min_tape.clone()), false);
+    let (tape, v_final, minimised) = match &confirm.ctx.violation {
+        Some(x) if x.signature(check.id()) == sig => (min_tape, x.clone(), true),
+        _ => (ex.tape.clone(), ex.ctx.violation.clone().unwrap(), false),
+    };
+    match write_replay(check, &p, &tape, &v_final, minimised, reruns, original_len, replay_dir) {
+        Ok(path) => {
+            println!("REPORT {}", json!({"ok": true, "path": path, "detail": v_final.detail, "original_len": original_len, "final_len": tape.len(), "reruns": reruns}));
+            0
+        }
+        Err(e) => {
+            println!("REPORT {}", json!({"ok": false, "error": e}));
+            2
+        }
+    }
 }
